@@ -208,6 +208,12 @@ def store_level(chk, rng, tier):
     keys = [b"a", b"ab", b"ab?", b"aba", b"abab", b"abb", b"b", b"a.c", b"abc", b"a+b", b"(", b"a|b", b"$", b"user:", b"user:1", b"user:10", b"*", b"?", b"", b"a\nb", b"xabcx"]
     pats = [b"*", b"?", b"a?", b"ab?", b"a*", b"*b", b"a.c", b"a+b", b"(", b"a|b", b"$", b"user:?", b"user:*", b"??", b"???", b"a??", b"*a*", b"ab", b"abc", b"?*", b"*?", b"a?b", b"", b"\\*", b"\\?", b"x*x"]
     pats += [bytes(rng.choice(ALPHA5) for _ in range(rng.randint(1, 4))) for _ in range(40 if tier == "quick" else 400)]
+    # a pattern is data, whatever it spells: every word that means something elsewhere in the source under test (option words such
+    # as MATCH / COUNT / TYPE, command names, configuration keys - mined on every run), in both cases, is a literal pattern here
+    import thresholds as T
+    words = sorted({w for w in T.mined_strings() if w.isalpha() and len(w) <= 12})
+    keys += [b"match", b"count", b"TYPE", b"Count"]
+    pats += [w.lower().encode() for w in words] + [w.upper().encode() for w in words] + [b"Count", b"mAtCh"]
     cases = []
     setup = [("MSET", [x for k in keys for x in (k, b"v")])]
     for i in range(0, len(pats), 8):
